@@ -11,7 +11,8 @@ kind:
 tiers: which tiers run the unit.
 """
 
-FMT = "alloc :: fmt :: format"  # stub that must be confirmed in Kani's output when needs_fmt_stub
+FMT = "alloc :: fmt :: format"
+RANDOM_STATE = "std :: hash :: RandomState :: new"  # fixed-key stub, only where a struct under test carries an (unused) HashSet  # stub that must be confirmed in Kani's output when needs_fmt_stub
 
 UNITS = {
     # ------------------------------------------------------------------ C19
@@ -126,6 +127,11 @@ UNITS["C07"] = [
        "any non-NaN tent", "zeroes() == (0,0,0), valid, !has_non_zero; has_non_zero <=> not (0,0,0)"),
     _k("c07_tent_region_axis_coords_valid", "fontdrasil", _VAR, ["fontdrasil::variations::Tent::to_region_axis_coords", "fontdrasil::coords::NormalizedCoord::to_f2dot14"], "complete",
        "all f64 valid tents inside [-1,1]; loop-free", "valid tent inside [-1,1]", "F2Dot14 start <= peak <= end, not spanning zero, inside [-1,1], each within 2^-15 of its f64"),
+    _k("c07_scalar_at_one_axis_peak_and_outside", "fontdrasil", _VAR, ["fontdrasil::variations::VariationRegion::scalar_at", "fontdrasil::variations::VariationRegion::scalar_at_with_args"], "bounded",
+       "ONE axis; every valid tent inside [-1,1]; every location v in [-1,1] with v == peak or v outside (min,max)", "valid one-axis region",
+       "scalar == 1 at the peak and for the always-on (0,0,0) tent; scalar == 0 at or beyond min/max", stubs=[RANDOM_STATE]),
+    _k("c07_scalar_at_missing_axis_reads_default", "fontdrasil", _VAR, ["fontdrasil::variations::VariationRegion::scalar_at"], "bounded",
+       "ONE axis in the region, empty location", "valid one-axis region, location without that axis", "axis read as 0: scalar == 1 iff the tent peaks at 0, else 0", stubs=[RANDOM_STATE]),
     _k("c07_tent_cover", "fontdrasil", _VAR, [], "complete", "", "", "positive, negative and invalid tents reachable", kind="cover"),
 ]
 
@@ -198,6 +204,7 @@ KANI_TRUSTED = [
     "alloc::fmt::format is stubbed to return an empty String in harnesses that reach format! (error messages are never inspected); confirmed on every run from Kani's '- Stub:' line",
     "dependencies reached by a harness (write-fonts, font-types, kurbo, ordered-float, smallvec) are verified *through* (CBMC executes their real code); they carry no contracts of their own",
     "glue: the job bodies (impl Work ... exec) that call these kernels take a Context and are not under any contract",
+    "std::hash::RandomState::new is stubbed to fixed keys ONLY in the two scalar_at harnesses, because VariationRegion carries a HashSet field that scalar_at never reads and whose real constructor reaches a futex syscall Kani cannot model",
     "Kani proves no termination; loops are unrolled to the stated bound with unwinding assertions on",
 ]
 
